@@ -269,3 +269,12 @@ var cleanups []func()
 // Cleanup registers fn to run when a RunTimed harness ends (lets helper goroutines exit
 // so that the virtual-time bubble can finish); a no-op under the symbolic executor.
 func Cleanup(fn func()) { cleanups = append(cleanups, fn) }
+
+// JSONText returns the Go string whose JSON encoding is b (ok=false if b is not one JSON string literal).
+func JSONText(b []byte) (string, bool) {
+	var s string
+	if err := json.Unmarshal(b, &s); err != nil {
+		return "", false
+	}
+	return s, true
+}
